@@ -965,7 +965,19 @@ def class_named(*args, **kwargs):
     class kwargs(dict):
         pass
     return callee(*args, **kwargs)
+def def_named(*args, **kwargs):
+    def kwargs(): pass
+    return callee(*args, **kwargs)
+def def_shadow(*args, **kwargs):
+    def callee(q): return q
+    return callee(*args, **kwargs)
+def def_shadow_attr(*args, **kwargs):
+    def callee(q): return q
+    callee.attr = callee
+    return callee.attr(*args, **kwargs)
 def untouched(*args, **kwargs):
+    def helper(q): return q
+    helper(1)
     import collections
     try:
         pass
@@ -994,7 +1006,7 @@ def rt_rebinding_forms(req):
         with warnings.catch_warnings():
             warnings.simplefilter('ignore')
             for nm, star in (('except_as', 'K'), ('import_as', 'K'), ('import_plain', 'K'), ('match_as', 'K'), ('match_rest', 'K'),
-                             ('match_star', 'A'), ('class_named', 'K')):
+                             ('match_star', 'A'), ('class_named', 'K'), ('def_named', 'K')):
                 f = getattr(mod, nm)
                 sig = sigtools.signature(f)
                 if str(sig) == str(signatures.signature(f)):
@@ -1006,6 +1018,11 @@ def rt_rebinding_forms(req):
                 if bad:
                     problems.append('rebound-star-advertised: %s rebinds %s by a non-assignment binding form, yet sigtools.signature = %s advertises %s of the callee' % (
                         nm, '**kwargs' if star == 'K' else '*args', sig, bad))
+            for nm in ('def_shadow', 'def_shadow_attr'):
+                f = getattr(mod, nm)
+                sig = sigtools.signature(f)
+                if str(sig) != str(signatures.signature(f)):
+                    problems.append('shadowed-callee-advertised: %s defines a nested function named like the module-level callee and forwards to THAT, yet sigtools.signature = %s (the module-level callee was examined)' % (nm, sig))
             if str(sigtools.signature(mod.untouched)) != '(x, y=1, *, z=2)':
                 problems.append('binding-forms-of-other-names: sigtools.signature(untouched) = %s' % sigtools.signature(mod.untouched))
     finally:
